@@ -69,6 +69,12 @@ type shared struct {
 	fsArgs    [][2]int32
 	apArgs    [][2]uint64
 	fdArgs    [][2]int
+	// same function, arguments that differ in one place only (what a memo slot or a per-size cache confuses):
+	// several tree sizes of ONE height, with one bitmap long enough for all of them
+	hamMasks [][]int32
+	hamBM    []uint64
+	groups   map[string][]int // group name -> indexes into ham: hammered concurrently in a tight loop
+	ham      []call
 }
 
 func mkShared(r *rand.Rand) *shared {
@@ -132,6 +138,12 @@ func mkShared(r *rand.Rand) *shared {
 		s.decFull = append(s.decFull, full)
 		s.decBM = append(s.decBM, full[:k])
 	}
+	for _, h := range []int{8, 9, 10} {
+		top := int32(1) << uint(h)
+		ms := []int32{top<<1 - 1, top | 1<<uint(h-1) | 1<<uint(h-2) | 1, top | int32(r.Intn(int(top))), top | int32(r.Intn(int(top)))}
+		s.hamMasks = append(s.hamMasks, ms)
+	}
+	s.hamBM = patWords(r, 1<<11/64, 0.3)
 	for i := 0; i < 20; i++ {
 		h := 12
 		nd := randNode(r, h)
@@ -211,6 +223,7 @@ func (s *shared) snapshot() J {
 		"sidx": digest(s.sidx), "sidx2": digest(s.sidx2), "ridx": digest(s.ridx),
 		"keys": digest(s.keys), "plainA": digest(s.plainA), "plainFull": digest(s.plainFull), "wordsFull": digest(s.wordsFull), "strA": digest(s.strA), "enc": digest(s.enc),
 		"paths": digest(s.paths), "masks": digest(s.masks), "decBM": digest(s.decBM), "decFull": digest(s.decFull), "vals": digest(s.vals),
+		"hamMasks": digest(s.hamMasks), "hamBM": digest(s.hamBM),
 	}
 }
 
@@ -452,6 +465,65 @@ func (s *shared) calls() []call {
 		i := i
 		cs = append(cs, call{fmt.Sprintf("Decode%d", i), func() interface{} { return bmtree.Decode(s.masks[i], s.decBM[i]) }})
 	}
+	// ---- variant groups: one function, arguments differing in one place (several sizes of one height, several
+	// ranges of one size, several heights with one index, ...). Per group all goroutines hammer the group's calls
+	// at once in a tight loop (execConc, hammer phase); each call is also made sequentially afterwards.
+	s.groups = map[string][]int{}
+	s.ham = nil
+	grp := func(g, id string, fn func() interface{}) {
+		s.groups[g] = append(s.groups[g], len(s.ham))
+		s.ham = append(s.ham, call{"H:" + g + ":" + id, fn})
+	}
+	for hi, ms := range s.hamMasks {
+		h := bmtree.Height(ms[0])
+		for mi, m := range ms {
+			m := m
+			g := fmt.Sprintf("h%d", h)
+			grp("Decode"+g, fmt.Sprint(mi), func() interface{} { return bmtree.Decode(m, s.hamBM) })
+			grp("AllPaths"+g, fmt.Sprint(mi), func() interface{} {
+				last := bmtree.NewPath(1<<uint(h)-1, h, h)
+				return [][]uint64{bmtree.AllPaths(m, 0, 1<<63), bmtree.AllPaths(m, 0, last), bmtree.AllPaths(m, last>>1, last)}
+			})
+			grp("PathToIndex"+g, fmt.Sprint(mi), func() interface{} {
+				var r []int32
+				for x := int32(0); x < int32(1)<<uint(h); x += 37 {
+					p := bmtree.NewPath(uint64(x), h, h)
+					a, b := bmtree.PathToIndexLoose(m, p)
+					r = append(r, a, b)
+				}
+				return r
+			})
+		}
+		_ = hi
+	}
+	for _, h := range []int32{4, 5, 11, 12, 29, 30} {
+		h := h
+		grp("IndexToPath", fmt.Sprint(h), func() interface{} {
+			var r []uint64
+			for _, x := range []int32{0, 1, 2, 7, 15, 16, 30, 31} {
+				r = append(r, bmtree.IndexToPath(h, x))
+			}
+			return r
+		})
+	}
+	for _, ms := range []int32{1, 2, 3, 5} {
+		ms := ms
+		grp("ShardByPrefix", fmt.Sprint(ms), func() interface{} {
+			a, b := sigbits.ShardByPrefix(s.keys, ms)
+			return [][]int32{a, b}
+		})
+	}
+	for e := int32(2); e <= int32(len(s.keys)) && e < 7; e++ {
+		e := e
+		grp("CountPrefixes", fmt.Sprint(e), func() interface{} {
+			a, b := s.sb.CountPrefixes(0, e, 9)
+			return []interface{}{a, b}
+		})
+	}
+	for i, a := range s.sliceArgs {
+		a := a
+		grp("Slice", fmt.Sprint(i), func() interface{} { return bitmap.Slice(s.bm, a[0], a[1]) })
+	}
 	return cs
 }
 
@@ -551,7 +623,7 @@ func execConc(in In, em *Emitter) {
 	G, rounds := in.Int("g"), in.Int("rounds")
 	s := mkShared(r)
 	inputRanges = nil
-	for _, x := range []interface{}{s.bm, s.bmFull, s.bm2, s.r64, s.r128, s.sidx, s.sidx2, s.ridx, s.plainA, s.plainFull, s.wordsFull, s.enc, s.paths, s.masks, s.decBM, s.decFull, s.vals} {
+	for _, x := range []interface{}{s.bm, s.bmFull, s.bm2, s.r64, s.r128, s.sidx, s.sidx2, s.ridx, s.plainA, s.plainFull, s.wordsFull, s.enc, s.paths, s.masks, s.decBM, s.decFull, s.vals, s.hamBM} {
 		addInputRange(reflect.ValueOf(x))
 	}
 	raceReports() // drop anything older
@@ -640,6 +712,47 @@ func execConc(in In, em *Emitter) {
 		}
 	}
 	em.Calls(G * rounds * len(cs))
+	// ---- hammer phase: per variant group all goroutines loop over the group's calls at once, each from its own
+	// starting point. One Start/Finish pair is logged per distinct (goroutine, call, result): a result that
+	// differs even once from what the call returns elsewhere is rejected by the trace specification.
+	gnames := make([]string, 0, len(s.groups))
+	for gn := range s.groups {
+		gnames = append(gnames, gn)
+	}
+	sort.Strings(gnames)
+	iters := in.Int("hammer")
+	for _, gn := range gnames {
+		idx := s.groups[gn]
+		seen := make([]map[[2]string]bool, G)
+		var hw sync.WaitGroup
+		go2 := make(chan struct{})
+		for g := 0; g < G; g++ {
+			seen[g] = map[[2]string]bool{}
+			hw.Add(1)
+			go func(g int) {
+				defer hw.Done()
+				<-go2
+				for it := 0; it < iters; it++ {
+					c := s.ham[idx[(it+g)%len(idx)]]
+					seen[g][[2]string{c.id, runCall(c)}] = true
+				}
+			}(g)
+		}
+		close(go2)
+		hw.Wait()
+		for g := 0; g < G; g++ {
+			ks := make([][2]string, 0, len(seen[g]))
+			for k := range seen[g] {
+				ks = append(ks, k)
+			}
+			sort.Slice(ks, func(a, b int) bool { return ks[a][0]+ks[a][1] < ks[b][0]+ks[b][1] })
+			for i, k := range ks {
+				em.Emit("Start", J{"g": g, "seq": -1 - i, "call": k[0]})
+				em.Emit("Finish", J{"g": g, "seq": -1 - i, "call": k[0], "r": k[1]})
+			}
+		}
+		em.Calls(G * iters)
+	}
 	if rep := raceReports(); rep != "" {
 		if len(rep) > 1500 {
 			rep = rep[:1500]
@@ -655,12 +768,15 @@ func execConc(in In, em *Emitter) {
 	for i := len(cs) - 1; i >= 0; i-- {
 		em.Emit("SeqCall", J{"call": cs[i].id, "r": runCall(cs[i]), "dir": "rev"})
 	}
-	em.Calls(2 * len(cs))
+	for _, c := range s.ham {
+		em.Emit("SeqCall", J{"call": c.id, "r": runCall(c), "dir": "fwd"})
+	}
+	em.Calls(2*len(cs) + len(s.ham))
 	em.Emit("Snapshot", J{"mem": s.snapshot(), "tabs": s.tables()})
 }
 
 func genC19(g *Gen) {
 	for c := 0; c < g.N(24, 400); c++ {
-		g.Case("conc", J{"seed": g.R.Int63n(1 << 40), "g": 8, "rounds": g.N(3, 6)})
+		g.Case("conc", J{"seed": g.R.Int63n(1 << 40), "g": 8, "rounds": g.N(3, 6), "hammer": g.N(60, 300)})
 	}
 }
